@@ -3,6 +3,7 @@ package main
 import (
 	"fmt"
 	"go/types"
+	"math/big"
 	"sort"
 	"strings"
 
@@ -166,6 +167,30 @@ func init() {
 	})
 	reg("(time.Time).Format", nil, func(st *State, fr *Frame, call ssa.CallInstruction, a []SVal) (SVal, bool) {
 		return App(SStr, st.declareFun("spec.time_format", []Sort{SInt, SStr}, SStr), st.scalar(a[0]), st.scalar(a[1])), true
+	})
+	// strconv.Atoi: on success the value is the (uninterpreted) decimal reading of the text and fits an int
+	reg("strconv.Atoi", nil, func(st *State, fr *Frame, call ssa.CallInstruction, a []SVal) (SVal, bool) {
+		s := st.scalar(a[0])
+		v := App(SInt, st.declareFun("spec.atoi", []Sort{SStr}, SInt), s)
+		e := st.fresh("atoierr", SInt)
+		st.assume(And(Ge(e, IntLit(0)), Lt(e, IntLit(900000000))))
+		i := st.fresh("atoi", SInt)
+		st.assume(Implies(Eq(e, IntLit(0)), And(Eq(i, v), Ge(i, BigLit(new(big.Int).Neg(new(big.Int).Lsh(big.NewInt(1), 63)))), Lt(i, BigLit(new(big.Int).Lsh(big.NewInt(1), 63))))))
+		st.assume(Implies(Neq(e, IntLit(0)), Eq(i, IntLit(0))))
+		return &TupleV{[]SVal{i, e}}, true
+	})
+	// math.Pow10(n): exact powers of ten for 0 <= n <= 18, an unknown positive real otherwise
+	reg("math.Pow10", nil, func(st *State, fr *Frame, call ssa.CallInstruction, a []SVal) (SVal, bool) {
+		n := st.scalar(a[0])
+		other := App(SInt, st.declareFun("pow10_int", []Sort{SInt}, SInt), n)
+		r := other
+		v := new(big.Int).Exp(big.NewInt(10), big.NewInt(18), nil)
+		for k := int64(18); k >= 0; k-- {
+			r = Ite(Eq(n, IntLit(k)), BigLit(v), r)
+			v = new(big.Int).Div(v, big.NewInt(10))
+		}
+		st.assume(Gt(other, IntLit(0)))
+		return App(SReal, "to_real", r), true
 	})
 	reg("unicode.IsLetter", nil, func(st *State, fr *Frame, call ssa.CallInstruction, a []SVal) (SVal, bool) {
 		return App(SBool, st.declareFun("unicode_isletter", []Sort{SInt}, SBool), st.scalar(a[0])), true
@@ -368,6 +393,10 @@ func (st *State) durOf(p *Term) *Term {
 }
 
 func (st *State) truncReal(x *Term) *Term {
+	if strings.HasPrefix(x.S, "(to_real ") && strings.HasSuffix(x.S, ")") {
+		// an integer-valued real: truncation is the identity
+		return &Term{S: x.S[len("(to_real ") : len(x.S)-1], Sort: SInt}
+	}
 	return Ite(Ge(x, RealLit(0)), App(SInt, "to_int", x), Sub(IntLit(0), App(SInt, "to_int", App(SReal, "-", x))))
 }
 
@@ -604,6 +633,9 @@ func (st *State) specBuiltin(env *Env, e *Expr) (SVal, types.Type, bool) {
 		a, _ := st.elab(env, e.Args[0])
 		b, _ := st.elab(env, e.Args[1])
 		return App(SStr, st.declareFun("spec.time_format", []Sort{SInt, SStr}, SStr), st.scalar(a), st.scalar(b)), tString, true
+	case "atoi":
+		a, _ := st.elab(env, e.Args[0])
+		return App(SInt, st.declareFun("spec.atoi", []Sort{SStr}, SInt), st.scalar(a)), tInt, true
 	case "fresh_only":
 		// fresh_only("E:uuid.UUID:", ...): in the arrays matching the patterns, every object that existed when the
 		// unit was entered still holds what it held then (only objects allocated since may differ)
